@@ -610,6 +610,27 @@ impl Scenario for Hostile {
                             }
                         }
                     }
+                    if r.chance(1, 4) {
+                        // records that real archivers write and that a reader may one day interpret (Unicode path /
+                        // comment with the CRC of the header's own name, timestamps, Unix ids, NTFS times ...), well
+                        // formed or claiming a length other than their body's, in the local header, the central one or both
+                        let mut rx = Rng::derive(r.next_u64(), "real-world-extra");
+                        for e in l.entries.iter_mut() {
+                            if rx.chance(1, 2) {
+                                let lie = rx.chance(1, 2);
+                                let rec = real_world_records(&mut rx, &e.name.0, &e.comment.0, lie);
+                                if rec.len() <= if small { 48 } else { 400 } {
+                                    let wh = rx.below(3);
+                                    if wh != 1 {
+                                        e.extra_local.0.extend_from_slice(&rec);
+                                    }
+                                    if wh != 0 {
+                                        e.extra_central.0.extend_from_slice(&rec);
+                                    }
+                                }
+                            }
+                        }
+                    }
                     if !small && r.chance(1, 3) {
                         // long names that are not ASCII: the name accessors (mangled / enclosed / raw / decoded)
                         let k = r.usize_below(l.entries.len());
